@@ -109,33 +109,98 @@ func runC19(c *Ctx) {
 	prepareRead, reserve, consume, data, claim := bb("PrepareRead"), bb("Reserve"), bb("Consume"), bb("Data"), bb("Claim")
 	errNeedMore := p.GlobalVar("sonicerrors", "ErrNeedMore")
 
-	// the wire length
-	var wire *ssa.Call
-	eachInstr(dec, func(in ssa.Instruction) {
+	// the wire length: the Uint32 read in Decode, or the first result of a helper of Decode that reads it and returns it
+	// with a nil error only when it is within the limit (parsePayloadLen(header) (uint32, error))
+	type wireValue interface {
+		ssa.Value
+		ssa.Instruction
+	}
+	isUint32 := func(in ssa.Instruction) *ssa.Call {
 		if call, ok := in.(*ssa.Call); ok && call.Call.StaticCallee() != nil && call.Call.StaticCallee().Name() == "Uint32" && call.Call.StaticCallee().Pkg != nil && call.Call.StaticCallee().Pkg.Pkg.Path() == "encoding/binary" {
+			return call
+		}
+		return nil
+	}
+	withinLimit := func(w ssa.Value, b *ssa.BasicBlock) bool {
+		for _, l := range guardsOf(b) {
+			op, x, y, ok := l.cmp()
+			if ok && x == w { // the comparison must be on the unsigned value itself
+				if k, isK := constInt(y); isK && ((op == token.LEQ && k == maxLen) || (op == token.LSS && k == maxLen+1)) {
+					return true
+				}
+			}
+		}
+		return false
+	}
+	var wire wireValue
+	var wireErr ssa.Value // set when the limit is checked inside the helper: its error result
+	eachInstr(dec, func(in ssa.Instruction) {
+		if call := isUint32(in); call != nil {
 			wire = call
 		}
 	})
 	if wire == nil {
+		for _, hc := range allCalls(dec) {
+			h := hc.Call.StaticCallee()
+			if !isHelperOf(dec, h) || knownOnPinnedTree(h) || h.Signature.Results().Len() != 2 {
+				continue
+			}
+			var hw *ssa.Call
+			eachInstr(h, func(in ssa.Instruction) {
+				if call := isUint32(in); call != nil {
+					hw = call
+				}
+			})
+			if hw == nil {
+				continue
+			}
+			okAll := true
+			for _, r := range returnsOf(h) {
+				if !isNil(r.Results[1]) {
+					continue
+				}
+				if r.Results[0] != ssa.Value(hw) || !withinLimit(hw, r.Block()) {
+					okAll = false
+				}
+			}
+			ex0, _ := extractOfInstr(hc, 0).(*ssa.Extract)
+			if okAll && ex0 != nil && extractOfInstr(hc, 1) != nil {
+				wire, wireErr = ex0, extractOfInstr(hc, 1)
+			}
+		}
+	}
+	if wire == nil {
 		infra("anchor: the length prefix read (binary.BigEndian.Uint32) in frame.Codec.Decode not found")
+	}
+	wireFn := dec // where the prefix is read (Decode, or the helper that validates it)
+	if ex, ok := ssa.Value(wire).(*ssa.Extract); ok {
+		wireFn = ex.Tuple.(*ssa.Call).Call.StaticCallee()
+	}
+	// headerPlusWire: v == HeaderLen + the declared length (in any order, through conversions)
+	headerPlusWire := func(v ssa.Value) bool {
+		ls := additiveLeaves(v)
+		nK, nW := 0, 0
+		for _, l := range ls {
+			switch {
+			case l.isK && l.k == headerLen && !l.cond:
+				nK++
+			case !l.isK && !l.cond && stripConv(l.v) == ssa.Value(wire):
+				nW++
+			default:
+				return false
+			}
+		}
+		return nK == 1 && nW == 1
 	}
 
 	// ------------------------------------------------------------------------------------------------ R1
 	c.rule("C19-R1", "the declared length is bounded by MaxPayloadLength (on the unsigned value) before every use", 5)
 	{
 		bounded := func(b *ssa.BasicBlock) bool {
-			for _, l := range guardsOf(b) {
-				op, x, y, ok := l.cmp()
-				if ok && stripConv(x) == ssa.Value(wire) || (ok && x == ssa.Value(wire)) {
-					if k, isK := constInt(y); isK && ((op == token.LEQ && k == maxLen) || (op == token.LSS && k == maxLen+1)) {
-						// the comparison must be on the unsigned value itself
-						if x == ssa.Value(wire) {
-							return true
-						}
-					}
-				}
+			if wireErr != nil {
+				return guardedNil(b, wireErr) // the helper hands the value out with a nil error only within the limit
 			}
-			return false
+			return withinLimit(wire, b)
 		}
 		var uses []ssa.Instruction
 		var collect func(v ssa.Value, depth int)
@@ -242,7 +307,7 @@ func runC19(c *Ctx) {
 			c.check(shape, dec, "payload returned", exitPos(r), "payload = Data()[:len] after the header was dropped", "the item returned is not Data()[:declared length] taken after Consume(HeaderLen): the payload is shifted by the header or has the wrong length")
 			prepared := false
 			for _, pc := range pcalls {
-				if leafSummary(additiveLeaves(pc.Common().Args[1])) == fmt.Sprintf("%d+Uint32()", headerLen) && guardedNil(r.Block(), pc.(ssa.Value)) {
+				if headerPlusWire(pc.Common().Args[1]) && guardedNil(r.Block(), pc.(ssa.Value)) {
 					prepared = true
 				}
 			}
@@ -393,7 +458,7 @@ func runC19(c *Ctx) {
 			}
 			return out
 		}
-		eo, do := order(enc, "PutUint32"), order(dec, "Uint32")
+		eo, do := order(enc, "PutUint32"), order(wireFn, "Uint32")
 		c.check(eo != "" && eo == do, enc, "byte order", enc.Pos(), "prefix written and read as "+eo, fmt.Sprintf("the length prefix is written as %s and read as %s: every item is framed with a length the other side misreads", eo, do))
 	}
 
@@ -402,7 +467,7 @@ func runC19(c *Ctx) {
 		// Reserve on the payload need-more path
 		good := false
 		for _, rc := range callsToFn(dec, reserve) {
-			if leafSummary(additiveLeaves(rc.Common().Args[1])) != fmt.Sprintf("%d+Uint32()", headerLen) {
+			if !headerPlusWire(rc.Common().Args[1]) {
 				continue
 			}
 			for _, l := range guardsOf(rc.(ssa.Instruction).Block()) {
@@ -434,7 +499,7 @@ func runC19(c *Ctx) {
 					succ = in.Block().Succs[1]
 				}
 				okp, _ := mustPassAt(succ, 0, func(x ssa.Instruction) bool {
-					return isCallToFn(x, reserve) && leafSummary(additiveLeaves(x.(ssa.CallInstruction).Common().Args[1])) == fmt.Sprintf("%d+Uint32()", headerLen)
+					return isCallToFn(x, reserve) && headerPlusWire(x.(ssa.CallInstruction).Common().Args[1])
 				})
 				if !okp {
 					good = false
